@@ -133,6 +133,40 @@ fn quantile_on(c: &OCase, q: f64, m: QuantileMethod) -> (Result<f64, String>, &'
     }
 }
 
+/// Lower / Higher of data that contain infinite elements: the result is exactly the order statistic
+/// below / above the index (n-1)q - an infinite neighbour is returned as that infinity, never as a
+/// finite stand-in. Only the two methods that return an element are compared (interpolating between
+/// an infinity and anything is outside the property); within 1e-9 of a grid point either side's
+/// neighbour is accepted (DESIGN 5.5).
+fn check_quantile_inf(c: &OCase, obs: &mut Obs) -> CheckResult {
+    let s = sorted_valid(&c.x);
+    let n = s.len();
+    if n < 2 || c.enc == Enc::I32 {
+        obs.set_nontrivial(false);
+        return Ok(());
+    }
+    let q = q_of(c, n);
+    let pos = (n - 1) as f64 * q;
+    let near = (pos - pos.round()).abs() < 1e-9;
+    let (lo, hi) = if near { let k = pos.round() as usize; (k.saturating_sub(1), (k + 1).min(n - 1)) } else { (pos.floor() as usize, pos.ceil() as usize) };
+    for (mname, m) in [("lower", QuantileMethod::Lower), ("higher", QuantileMethod::Higher)] {
+        let (r, label) = quantile_on(c, q, m);
+        obs.class(label);
+        let got = match r {
+            Ok(g) => g,
+            Err(e) => return fail(format!("vquantile:inf:{}:error", mname), format!("vquantile({}) returned an error for q in [0,1]: {}", q, e)),
+        };
+        let ok = if near { s[lo..=hi].iter().any(|v| *v == got) } else if mname == "lower" { got == s[lo] } else { got == s[hi] };
+        if !ok {
+            return fail(format!("vquantile:inf:{}", mname), format!("vquantile(q={}, {}) of sorted valid {:?} = {:e}, expected the order statistic at index {} (pos {})", q, mname, s, got, if mname == "lower" { lo } else { hi }, pos));
+        }
+    }
+    let ninf = s.iter().filter(|v| v.is_infinite()).count();
+    obs.set_nontrivial(ninf > 0 && !near);
+    obs.class_if(s[lo].is_infinite() || s[hi].is_infinite(), "infinite_neighbour");
+    Ok(())
+}
+
 fn check_quantile(c: &OCase, obs: &mut Obs) -> CheckResult {
     let s = sorted_valid(&c.x);
     let n = s.len();
@@ -593,6 +627,24 @@ fn main() {
             })
         },
         check_quantile,
+    ));
+    p.add(sub(
+        "vquantile:infinite_elements",
+        6000,
+        200000,
+        |t| {
+            o_case(t).prop_map(|mut c| {
+                let k = c.x.len();
+                for (i, v) in c.x.iter_mut().enumerate() {
+                    // about a third of the valid elements become -inf / +inf (a pure function of the case)
+                    if v.is_some() && (i * 7 + k) % 3 == 0 {
+                        *v = Some(if (i + k) % 2 == 0 { f64::NEG_INFINITY } else { f64::INFINITY });
+                    }
+                }
+                c
+            })
+        },
+        check_quantile_inf,
     ));
     p.add(sub("vpercentile_of", 10000, 300000, o_case, check_percentile));
     p.add(sub("vrank", 20000, 600000, o_case, check_rank));
